@@ -1,5 +1,5 @@
 (** C10 — pinned statements (inbound flows, notifications).  Only [Theorem .. exact ..]. *)
-From Rumqtt Require Import Client.Run4 Client.Inv4 Client.Wire4 Client.Events4 Client.State5 Client.Inv5.
+From Rumqtt Require Import Client.Run4 Client.Inv4 Client.Wire4 Client.Events4 Client.State5 Client.Inv5 Client.Loop Client.LoopProofs.
 From Rumqtt Require Import Client.Eff5 Client.Flow5 Client.Wire5 Client.Events5.
 
 Theorem c10_incoming : forall s pk, Inv s -> incoming_reply_spec s pk (handle_incoming_packet s pk).
@@ -61,3 +61,7 @@ Theorem c10_nontrivial_v5 :
            Ev5Out (OPublish 1); Ev5In (P5PubRec 1 135); Ev5In (P5PubComp 60000 0);
            Ev5In (P5Publish (mkPub5 Q1 9 0 1 (Some 4))); Ev5Out ODisconnect; Ev5In (P5Disconnect 139)], 0).
 Proof. exact events5_nontrivial. Qed.
+
+Theorem c10_readb_batch_keeps_all : forall inbox,
+  fst (Client.Loop.readb_take inbox) ++ snd (Client.Loop.readb_take inbox) = inbox /\ (length (fst (Client.Loop.readb_take inbox)) <= 9)%nat.
+Proof. exact Client.LoopProofs.readb_take_keeps_all. Qed.
